@@ -51,7 +51,7 @@ COSMO_BOX = {
 }
 
 
-def gen_config(rng, force=False, mixed=False, custom_sne=False, with_kde=False):
+def gen_config(rng, force=False, mixed=False, custom_sne=False, with_kde=False, file_sne=False):
     """force: the configuration with the most sampled blocks (log-space scatters, two anisotropy scatters);
     mixed: a sample in which a kinematic lens WITHOUT a slope axis precedes lenses that sample their own slope"""
     cosmology = rng.choice(["FLCDM", "FwCDM", "w0waCDM", "oLCDM", "oLCDM"])
@@ -129,7 +129,7 @@ def gen_config(rng, force=False, mixed=False, custom_sne=False, with_kde=False):
     if has_kin and rng.random() < 0.4:
         model["sigma_v_systematics"] = True
         lo_k["sigma_v_sys_error"], up_k["sigma_v_sys_error"] = (0.001 if logsc else 0.0), 0.5
-    sne = custom_sne or rng.random() < 0.25
+    sne = custom_sne or file_sne or rng.random() < 0.25
     if has_mag or sne:
         model["sne_apparent_m_sampling"] = True
         model["sne_distribution"] = rng.choice(["GAUSSIAN", "NONE"])
@@ -144,7 +144,7 @@ def gen_config(rng, force=False, mixed=False, custom_sne=False, with_kde=False):
                   kwargs_lower_kin=lo_k, kwargs_upper_kin=up_k, kwargs_lower_source=lo_s, kwargs_upper_source=up_s,
                   kwargs_lower_los=lo_los, kwargs_upper_los=up_los)
     # the supernova term from a user-supplied (CUSTOM) sample of realistic size instead of the bundled binned one
-    sne_custom = {"n": rng.randint(130, 190), "seed": rng.randrange(2 ** 30)} if (sne and (custom_sne or rng.random() < 0.5)) else None
+    sne_custom = {"n": rng.randint(130, 190), "seed": rng.randrange(2 ** 30)} if (sne and not file_sne and (custom_sne or rng.random() < 0.5)) else None
     # an external posterior chain entering through a kernel density estimate (its own data likelihood, like the lens sample
     # and the supernova term: not evaluated either when the vector is rejected)
     kde = {"n": rng.choice([40, 80]), "seed": rng.randrange(2 ** 30)} if (with_kde or rng.random() < 0.2) else None
@@ -398,12 +398,14 @@ def run(ctx, res):
     ncfg = ctx.n(28, 400)
     lines, meta = [], []
     for t in range(ncfg):
-        cfg = gen_config(rng, force=(t < 2), mixed=(t in (2, 3)), custom_sne=(t == 4), with_kde=(t in (5, 6)))
-        if t == 5:
-            cfg["cosmology"] = "oLCDM"      # the chain term together with the curved-model guard
+        cfg = gen_config(rng, force=(t < 2), mixed=(t in (2, 3)), custom_sne=(t == 4), with_kde=(t in (5, 6)), file_sne=(t == 7))
+        if t in (5, 7):
+            cfg["cosmology"] = "oLCDM"      # the chain term / a supernova sample read from file together with the curved-model guard
             cfg["bounds"]["kwargs_lower_cosmo"], cfg["bounds"]["kwargs_upper_cosmo"] = (
                 dict(COSMO_BOX["oLCDM"][0], **{k: v for k, v in cfg["bounds"]["kwargs_lower_cosmo"].items() if k == "gamma_ppn"}),
                 dict(COSMO_BOX["oLCDM"][1], **{k: v for k, v in cfg["bounds"]["kwargs_upper_cosmo"].items() if k == "gamma_ppn"}))
+        if t == 7:
+            cfg["bounds"]["kwargs_lower_cosmo"]["ok"], cfg["bounds"]["kwargs_upper_cosmo"]["ok"] = -1.0, 1.0     # an ordinary wide curvature box
         try:
             cl = build(cfg)
         except Exception as e:  # noqa
@@ -423,7 +425,11 @@ def run(ctx, res):
         if cfg["cosmology"] == "oLCDM":
             names = cl.param.param_list()
             io, ik = names.index("om"), names.index("ok")
-            for om, ok in [(0.05, -0.5), (0.02, -0.3), (0.3, 0.75), (0.6, 0.45), (0.05, -0.79), (0.0, -0.5), (1.0, -0.2), (0.1, -0.6)]:
+            # (the last three: strongly closed models that pass the E(z)^2 guard but lie beyond their antipode at z ~ 1.5 — F19)
+            for om, ok in [(0.05, -0.5), (0.02, -0.3), (0.3, 0.75), (0.6, 0.45), (0.05, -0.79), (0.0, -0.5), (1.0, -0.2), (0.1, -0.6),
+                           (0.25, -0.875), (0.22, -0.8), (0.28, -0.95)]:
+                if not (lo[io] <= om <= up[io] and lo[ik] <= ok <= up[ik]):
+                    continue
                 x = gen_vector(rng, lo, up, "inside")
                 x[io], x[ik] = om, ok
                 vectors.append(("olcdm_boundary", x))
